@@ -4,6 +4,7 @@ import (
 	"go/ast"
 	"go/token"
 	"go/types"
+	"strings"
 )
 
 func init() {
@@ -42,6 +43,29 @@ func linesPublishedBlanked(c *Ctx, rule string, rnl *FuncInfo) {
 			return true
 		})
 		c.Check(mentionsBuf, rule, "readNextLine:r.lines receives r.buf", s.Inner.Pos(), "same buffer", "r.lines is fed from something other than the blanked buffer")
+		// only the line terminator is removed on the way: blanks are content
+		trimsBlanks := ""
+		ast.Inspect(s.Inner, func(n ast.Node) bool {
+			call, ok := n.(*ast.CallExpr)
+			if !ok {
+				return true
+			}
+			fn := Callee(info, call)
+			if fn == nil || fn.Pkg() == nil || fn.Pkg().Path() != "strings" || !strings.HasPrefix(fn.Name(), "Trim") {
+				return true
+			}
+			if fn.Name() == "TrimSpace" {
+				trimsBlanks = exprStr(call)
+			}
+			if len(call.Args) == 2 {
+				if cut, isC := constString(info, call.Args[1]); !isC || strings.ContainsAny(cut, " \t") {
+					trimsBlanks = exprStr(call)
+				}
+			}
+			return true
+		})
+		c.Check(trimsBlanks == "", rule, "readNextLine:r.lines keeps everything but the line terminator", s.Inner.Pos(), "no blanks trimmed",
+			"the recorded line is `"+trimsBlanks+"`: trailing blanks are part of block scalar values, so the line table no longer matches what the YAML decoder saw and the position scan loses sync")
 	}
 }
 
